@@ -412,6 +412,7 @@ class CharacterBoosts(Characters):
     """
 
     def word_values(self, value, analyzer, **kwargs):
+        fb = self.field_boost
         seen = defaultdict(list)
 
         kwargs["positions"] = True
@@ -422,7 +423,7 @@ class CharacterBoosts(Characters):
 
         for w, poses in iteritems(seen):
             value, summedboost = self.encode(poses)
-            yield (w, len(poses), summedboost, value)
+            yield (w, len(poses), summedboost * fb, value)
 
     def encode(self, poses):
         fb = self.field_boost
